@@ -28,7 +28,7 @@ def with_directed_tail(st0, ops, seed):
     reached through imports (not named on the command line), imported as `from pkg.sub import mod` when it is a
     submodule, possibly with `# type: ignore` on the import line, is deleted while its importer stays untouched."""
     if seed % 2:
-        return st0, ops
+        return indirect_signature_tail(st0, ops, seed)
     import random
 
     rnd = random.Random(seed)
@@ -44,6 +44,42 @@ def with_directed_tail(st0, ops, seed):
         tail.append({"op": "toggle_import_ignore", "mod": imp, "dep": dep, "seed": rnd.randrange(2**30)})
     tail.append({"op": "delete_module", "mod": dep, "seed": rnd.randrange(2**30)})
     tail.append({"op": "change_use", "mod": imp, "use": (st["mods"][imp]["uses"] or [{"id": -1}])[0]["id"], "seed": rnd.randrange(2**30)})
+    return st0, ops + tail
+
+
+def indirect_signature_tail(st0, ops, seed):
+    """The other histories end with: module c gets a protocol P, module b (imports c) a function
+    `def f(x: T, x2: T, q: c.P)`, module a (imports b, not c) calls it with a local implementation of P; then P's
+    member signature changes and changes back. a depends on c only through a LATER item of f's signature, after two
+    items of the same type."""
+    import copy
+    import random
+
+    rnd = random.Random(seed ^ 0x51C)
+    st = histrun.replay_state(st0, ops, len(ops))
+    triples = sorted((a, b, c) for b, bm in st["mods"].items() for c, style in bm["imports"].items() if c in st["mods"] and style in ("import", "func") and not bm.get("broken")
+                     for a, am in st["mods"].items() if a not in (b, c) and am["imports"].get(b) in ("import", "from") and c not in am["imports"] and not am.get("broken"))
+    if not triples:
+        return st0, ops
+    a, b, c = rnd.choice(triples)
+    tail = []
+
+    def do(op):
+        tail.append(op)
+        project.apply_edit(st, op)
+
+    do({"op": "ensure_kind", "mod": c, "kind": "proto", "seed": rnd.randrange(2**30)})
+    protos = sorted(n for n, e in st["mods"][c]["exports"].items() if e["kind"] == "proto" and not e.get("hidden"))
+    if not protos:
+        return st0, ops
+    before = set(st["mods"][b]["exports"])
+    do({"op": "add_pproto_func", "mod": b, "dep": c, "name": protos[0], "seed": rnd.randrange(2**30)})
+    new = sorted(set(st["mods"][b]["exports"]) - before)
+    if not new:
+        return st0, ops
+    do({"op": "add_use_of", "mod": a, "dep": b, "name": new[0], "seed": rnd.randrange(2**30)})
+    do({"op": "change_sig", "mod": c, "name": protos[0], "seed": 1})
+    do({"op": "change_sig", "mod": c, "name": protos[0], "seed": 2})
     return st0, ops + tail
 
 
